@@ -15,6 +15,7 @@ extstrip = None
 class LinkEntry(GopherEntry):
     def __init__(self, selector: str, config: configparser.ConfigParser):
         super().__init__(selector, config)
+        self.num = None  # not set by the block (getnum(0) still yields 0)
         self.needsmerge = False
         self.needsabspath = False
 
